@@ -17,7 +17,10 @@ A history does NOT end at a failing operation (finding C10-use-after-failed-push
   spec  : C10  every build that SUCCEEDS decodes to exactly interp of the rows of the additions that succeeded since the
                previous successful build, in order (a 0-row build gives 0 rows), is identical to the one-shot to_marrow
                of that batch, and no build succeeds after an operation failed inside the builder;
-          C03  every array any build returns is a well-formed array of its field — decided on the arrays alone;
+          C03  every array any build returns is a well-formed array of its field (`Spec.WF`: structurally valid AND
+               `typeOf` = the field's data type) with exactly the rows of its batch, one array per field — decided on the
+               arrays alone, also after failed operations; not decided (left `pass`) for schemas holding a
+               `FixedSizeBinary(0)` (known finding C03-fixed-size-binary-0, decided by the build suite);
           C16  no panic, also after a failed operation;
           C18  (API coverage) the public accessors of every error agree with its Display text (`accessorsDisagree`).
 API coverage: `ctor_used = new` means the builder came from `ArrayBuilder::new(SerdeArrowSchema)` (same model: the
@@ -233,9 +236,9 @@ def handle (j : Json) : Except String Verdict := do
                   why := s!"build #{nbuilt} (op #{i}): decoded arrays differ between model and implementation"
               if iarrs != marrs then phys := false
             | _ => pure ()
-          -- C03 along histories (`Props.C10.C10_builds_wf`): every build returns well-formed arrays of the declared
-          -- fields, one per field, each with exactly the rows of its batch — also from a reused builder, also after a
-          -- failed operation
+          -- C03 along histories (`Props.C10.C10_builds_wf`, `C10_builds_wf_with_failures`): every build returns well-formed
+          -- arrays of the declared fields, one per field, each with exactly the rows of its batch — also from a reused
+          -- builder, also after a failed operation
           if !fsb0 then
             let wfAll := iarrs.length == fields.length &&
               (fields.zip iarrs).all (fun (f, a) => SaModel.Spec.WF f a && (decodeAll a).length == batch.length)
@@ -277,7 +280,8 @@ def handle (j : Json) : Except String Verdict := do
               if sig == "" || sig.startsWith "hist/build/decoded" || sig.startsWith "hist/build/model" then
                 sig := s!"hist/C10/{if !rowsOk then "unrepresentable-row-accepted" else if !colsOk then "batch-content" else "differs-from-oneshot"}/build{if nbuilt == 0 then "0" else "N"}/rows{if batch.isEmpty then "0" else "+"}{if dirty then "/after-failure" else ""}"
                 why := s!"build #{nbuilt} (op #{i}) with {batch.length} rows: rowsOk={rowsOk} colsOk={colsOk} sameAsOneshot={sameAsOneshot}"
-          -- C10, row-count level (`Props.C10.batches`, no hypothesis on the records since repo fix eafdf15): also a batch
+          -- C10, row-count level (`Props.C10.batches`, no hypothesis on the records: a Map builder refuses the streams that
+          -- do not alternate, repo fix eafdf15): also a batch
           -- with malformed key/value call streams holds exactly as many rows as were added, in every column
           if malformed && !fsb0 then
             let lensOk := idec.length == fields.length && idec.all (fun slots => slots.length == batch.length)
